@@ -380,6 +380,48 @@ def size_cumulative(n, fixed_dom=None):
     return (1 if fixed_dom else 3**n) * 3**n * 2**n * 3
 
 
+def space_cumulative_pair(idx):
+    """two cumulative constraints (two resources) over the same three tasks in one model: shared durations over {1,2},
+    demands over {1,2} per resource, capacities 1..3 each, start windows 0..2 or 0..3:
+    index = ((((dom*8 + dur)*8 + dem1)*8 + dem2)*3 + cap1)*3 + cap2"""
+    cap2 = 1 + idx % 3
+    k = idx // 3
+    cap1 = 1 + k % 3
+    k //= 3
+    dem2 = [(1, 2)[x] for x in digits(k % 8, 2, 3)]
+    k //= 8
+    dem1 = [(1, 2)[x] for x in digits(k % 8, 2, 3)]
+    k //= 8
+    dur = [(1, 2)[x] for x in digits(k % 8, 2, 3)]
+    dom = ((0, 2), (0, 3))[k // 8]
+    return tuple([dom] * 3), [("cumulative", (0, 1, 2), tuple(dur), tuple(dem1), cap1), ("cumulative", (0, 1, 2), tuple(dur), tuple(dem2), cap2)]
+
+
+def size_cumulative_pair():
+    return 2 * 8 * 8 * 8 * 3 * 3
+
+
+def space_global_pair(idx):
+    """two global constraints of the same kind over overlapping variable sets of four variables in 0..2 (0..3 for
+    no_overlap): index = kind_pair*81 + parameter code"""
+    P = idx % 81
+    kind = idx // 81
+    a, b, c, d = digits(P, 3, 4)
+    if kind == 0:  # two sums of different sense over {0,1,2} and {1,2,3}
+        senses = ("eq", "le", "ge")
+        return tuple([(0, 2)] * 4), [("sum", senses[a], (0, 1, 2), 1 + b), ("sum", senses[c], (1, 2, 3), 2 + d)]
+    if kind == 1:  # two no_overlap groups sharing task 1
+        return tuple([(0, 3)] * 4), [("no_overlap", (0, 1), (1 + a % 2, 1 + b % 2)), ("no_overlap", (1, 2, 3), (1 + b % 2, 1 + c % 2, d))]
+    if kind == 2:  # all_different on {0,1,2} and a sum on {1,2,3}
+        return tuple([(0, 2)] * 4), [("alldiff", (0, 1, 2)), ("sum", ("eq", "le", "ge")[a], (1, 2, 3), b + c + d)]
+    # a cumulative and a no_overlap over the same three tasks
+    return tuple([(0, 3)] * 3), [("cumulative", (0, 1, 2), (1 + a % 2, 1 + b % 2, 1 + c % 2), (1, 2, 1), 1 + d), ("no_overlap", (0, 1), (1 + a % 2, 1 + b % 2))]
+
+
+def size_global_pair():
+    return 4 * 81
+
+
 def space_mixed(idx):
     """global + comparison on the same variables: index = (g*|M| + c)"""
     M = cmp_menu_small()
